@@ -2,7 +2,7 @@
 # confirm a seeded change produced by a sub-agent: tools/confirm_mutant.sh <out-dir-name> <worktree>
 # (1) clean worktree at /repo HEAD: demo passes; (2) patch applies; tests pass; demo fails.
 set -u
-name="$1"; wt="$2"; out=/tmp/mut-out/$name
+name="$1"; wt="$2"; out=${3:-/tmp/mut-out}/$name
 export CARGO_TARGET_DIR="$wt/target" CARGO_NET_OFFLINE=true
 cd "$wt" || exit 2
 git checkout -q -- . ; git stash list | grep -q . && git stash drop -q
